@@ -81,6 +81,14 @@ CHECKS['C15'] = dict(level='exploration', design='6/C15',
     technique='property-based testing (Hypothesis): exact expected record set per row (eligible transcript pairs, thresholds, unknown genes, antisense) + semantic equality of the denoted fusion sequence with one built directly from the genomic breakpoints (independent model) + end-to-end differential against the definitional fusion digest through callVariant + tally oracle',
     text='Generated fusion rows in the STAR-Fusion, FusionCatcher and Arriba formats over generated multi-isoform references (all strand combinations, exonic / intronic / edge breakpoints, evidence around thresholds, unknown genes) are parsed; records, denoted sequences, tallies and the callVariant peptides of the parser output are compared with the model.',
     note='The three formats are taken to report the last retained donor base and the first retained acceptor base; REF of fusion records is not judged. End-to-end part uses the strict rule domain and <= 6 fusion records per case.')
+CHECKS['C16'] = dict(level='exploration', design='6/C16',
+    technique='property-based testing (Hypothesis): events derived from generated multi-isoform gene structures in rMATS coordinates; every emitted record for the matching transcript is applied under the documented <DEL>/<INS>/<SUB> semantics (independent model) and compared with the alternative isoform read from the genome; threshold and annotated-form oracles',
+    text='For generated genes (both strands, 1-3 isoforms) one event per rMATS type (SE with annotated or novel exon, A5SS/A3SS long or short form on the strand-dependent side, MXE first/second exon, RI) with read counts around the thresholds is parsed; records for the primary transcript must reproduce the alternative isoform; none may be emitted below the thresholds or when the alternative form is annotated.',
+    note='Soundness of emitted records only: the statement does not demand that every event be convertible (alternative sites of the last exon and MXE counts equal to the threshold yield no record; counted, not judged). Records are matched to events by the id the parser derives from the splice-site coordinates (A3SS records carry the prefix A5SS_ in this version). RI events where the transcript retains the intron are not generated.')
+CHECKS['C17'] = dict(level='exploration', design='6/C17',
+    technique='property-based testing (Hypothesis): exact expected record set (thresholds, exon / intron matching with tolerance ranges) and semantic equality of fragments, circular sequence and id with an independent strand-aware model; options go through the real argument parser',
+    text='Generated CIRCexplorer2/3 rows (exon subsets, ciRNA introns shifted around the tolerance ranges, unknown blocks, read numbers / scores around thresholds) over generated annotations on both strands are parsed through the real argument parser; records, fragments, circular sequences, ids and tallies are compared with the model.',
+    note='Tolerance model: start offset within --intron-start-range; end offset within --intron-end-range or the fragment ends before the downstream exon. Rows with identical back-splice coordinates are matched to records by fragment content.')
 NOT_YET = {}
 
 def main():
